@@ -1,82 +1,116 @@
 """Prompt grammars — the SPECIFICATION side of C05 (hand-written from the vendors' prompt formats,
 independent of scrapli's patterns except for the length bounds, which are the patterns' own limits so
 that an edit of a bound lands on the boundary).  Case-sensitive regexes without anchors, matched as
-whole strings.  `line` = the prompt as get_prompt returns it (stripped); `trail` = what the device
-prints after it.  `carve` = case-insensitive regexes; prompts matching one of them are EXCLUDED from the
+whole strings.  `line` = the prompt as get_prompt returns it (stripped); `len` = further regexes the
+whole prompt must also match (total-length bounds); `trail` = what the device prints after it.  `carve` = case-insensitive regexes; prompts matching one of them are EXCLUDED from the
 grammar — each carve-out is either a vendor convention (another mode prints exactly that text) or the
 region of a listed known finding (then `finding` names it)."""
 
 HOST = r"[A-Za-z0-9][A-Za-z0-9_.\-]"          # followed by {0,n}
 SUB = r"[a-z0-9][a-z0-9\-]"                   # configuration sub-mode name, followed by {0,n}
+HOSTU = r"[A-Za-z0-9][A-Za-z0-9_.\-]*"        # host name of any length (bounded by a `len` conjunct)
+JUSER = r"[a-z][a-z0-9_\-]*"                  # Junos login name of any length
 
 
-def host(n):
+_ADD = [False]
+
+# Tier.  thorough: host names are every string of HOST up to the patterns' own limit.  quick: the ADDITIVE form —
+# every hyphen-free name up to the limit (so each length bound of a pattern is still hit exactly) or any name, hyphens
+# included, of up to 24 characters (so the substring trackers of the not_contains / carve-out conjuncts, which only a
+# hyphenated name can advance, are not multiplied by the full length counter).  NX-OS and EOS only; a smaller language,
+# stated as such in the evidence.
+HOST_NOHYPHEN = r"[A-Za-z0-9][A-Za-z0-9_.]"
+
+
+def host(n, additive_ok=False):
+    if additive_ok and _ADD[0] and n > 24:
+        return "(" + HOST_NOHYPHEN + "{0,%d}|" % (n - 1) + HOST + "{0,23})"
     return HOST + "{0,%d}" % (n - 1)
 
 
-PLATFORMS = {
-    "cisco_iosxe": {
-        "trail": "",
-        "modes": {
-            "exec": {"line": host(63) + ">", "class": ["exec"]},
-            "privilege_exec": {"line": host(63) + "#", "class": ["privilege_exec"]},
-            "configuration": {"line": host(63) + r"\(config(-" + SUB + r"{0,24})?\)#", "class": ["configuration"],
-                              "carve": [(r"tcl\)", "vendor: (…tcl) is the tclsh prompt", None)]},
-            "tclsh": {"line": "(" + host(40) + r"\(tcl\)#|\+>)", "class": ["tclsh"]},
+def hosta(n):
+    return host(n, True)
+
+
+def platforms(additive=False):
+    _ADD[0] = bool(additive)
+    try:
+        return _platforms()
+    finally:
+        _ADD[0] = False
+
+
+def _platforms():
+    return {
+        "cisco_iosxe": {
+            "trail": "",
+            "modes": {
+                "exec": {"line": host(63) + ">", "class": ["exec"]},
+                "privilege_exec": {"line": host(63) + "#", "class": ["privilege_exec"]},
+                "configuration": {"line": host(63) + r"\(config(-" + SUB + r"{0,24})?\)#", "class": ["configuration"],
+                                  "carve": [(r"tcl\)", "vendor: (…tcl) is the tclsh prompt", None)]},
+                "tclsh": {"line": "(" + host(40) + r"\(tcl\)#|\+>)", "class": ["tclsh"]},
+            },
         },
-    },
-    "cisco_iosxr": {
-        "trail": "",
-        "modes": {
-            "privilege_exec": {"line": r"RP/0/RP[01]/CPU0:" + host(48) + "#", "class": ["privilege_exec"]},
-            "configuration": {"line": r"RP/0/RP[01]/CPU0:" + host(48) + r"\(config(-" + SUB + r"{0,24})?\)#",
-                              "class": ["configuration", "configuration_exclusive"]},
+        "cisco_iosxr": {
+            "trail": "",
+            "modes": {
+                "privilege_exec": {"line": r"RP/0/RP[01]/CPU0:" + host(48) + "#", "class": ["privilege_exec"]},
+                "configuration": {"line": r"RP/0/RP[01]/CPU0:" + host(48) + r"\(config(-" + SUB + r"{0,24})?\)#",
+                                  "class": ["configuration", "configuration_exclusive"]},
+            },
         },
-    },
-    "cisco_nxos": {
-        "trail": " ?",
-        "modes": {
-            "exec": {"line": host(63) + r"(\(maint-mode\))?>", "class": ["exec"]},
-            "privilege_exec": {"line": host(63) + r"(\(maint-mode\))?#", "class": ["privilege_exec"],
-                               "carve": [(r"-tcl", "host name containing -tcl (any case) reads as the tclsh prompt", "C05-nxos-tcl-host")]},
-            "configuration": {"line": host(63) + r"(\(maint-mode\))?\(config(-" + SUB + r"{0,24})?\)#", "class": ["configuration"],
-                              "carve": [(r"config-tcl\)", "vendor: tclsh inside configuration", None),
-                                        (r"config-s\)", "vendor: (config-s) is the configuration-session prompt", None),
-                                        (r"config-s-", "vendor: (config-s-…) is a configuration-session sub-mode", None),
-                                        (r"-tcl.*\(", "host name containing -tcl", "C05-nxos-tcl-host")]},
-            "tclsh": {"line": "(" + host(59) + r"-tcl#|" + host(50) + r"\(config-tcl\)#|>|" + host(40) + r"\(maint-mode-tcl\)#|"
-                              + host(40) + r"\(maint-mode\)\(config-tcl\)#)", "class": ["tclsh"],
-                      "carve": [(r"-tcl.*-tcl", "host name containing -tcl", "C05-nxos-tcl-host"),
-                                (r"-tcl.*\(", "host name containing -tcl", "C05-nxos-tcl-host")]},
+        "cisco_nxos": {
+            "trail": " ?",
+            "modes": {
+                "exec": {"line": hosta(63) + r"(\(maint-mode\))?>", "class": ["exec"]},
+                "privilege_exec": {"line": hosta(63) + r"(\(maint-mode\))?#", "class": ["privilege_exec"],
+                                   "carve": [(r"-tcl", "host name containing -tcl (any case) reads as the tclsh prompt", "C05-nxos-tcl-host")]},
+                "configuration": {"line": hosta(63) + r"(\(maint-mode\))?\(config(-" + SUB + r"{0,24})?\)#", "class": ["configuration"],
+                                  "carve": [(r"\(.*config-tcl", "vendor: a decoration containing config-tcl is the tclsh-in-configuration prompt", None),
+                                            (r"\(.*config-s\)", "vendor: a decoration ending in config-s) is the configuration-session prompt", None),
+                                            (r"\(.*config-s-", "vendor: a decoration containing config-s- is a configuration-session sub-mode", None),
+                                            (r"-tcl.*\(", "host name containing -tcl", "C05-nxos-tcl-host"),
+                                            (r"config-s-.*\(config", "host name containing config-s-", "C05-nxos-config-s-host")]},
+                "tclsh": {"line": "(" + hosta(59) + r"-tcl#|" + hosta(50) + r"\(config-tcl\)#|>|" + hosta(40) + r"\(maint-mode-tcl\)#|"
+                                  + hosta(40) + r"\(maint-mode\)\(config-tcl\)#)", "class": ["tclsh"],
+                          "carve": [(r"-tcl.*-tcl", "host name containing -tcl", "C05-nxos-tcl-host"),
+                                    (r"-tcl.*\(", "host name containing -tcl", "C05-nxos-tcl-host")]},
+            },
+            "session": {"line": hosta(63) + r"(\(maint-mode\))?\(config-s(-" + SUB + r"{0,24})?\)#",
+                        "carve": [(r"-tcl", "host name containing -tcl", "C05-nxos-tcl-host")]},
         },
-        "session": {"line": host(32) + r"\(config-s(-" + SUB + r"{0,24})?\)#",
-                    "carve": [(r"-tcl", "host name containing -tcl", "C05-nxos-tcl-host")]},
-    },
-    "arista_eos": {
-        "trail": "",
-        "modes": {
-            "exec": {"line": host(63) + ">", "class": ["exec"]},
-            "privilege_exec": {"line": host(63) + "#", "class": ["privilege_exec"]},
-            "configuration": {"line": host(63) + r"\(config(-[A-Za-z0-9][A-Za-z0-9\-]{0,55})?\)#", "class": ["configuration"],
-                              "carve": [(r"\(config-s-", "vendor: (config-s-<name>) is the configuration-session prompt", None)]},
+        "arista_eos": {
+            "trail": "",
+            "modes": {
+                "exec": {"line": hosta(63) + ">", "class": ["exec"]},
+                "privilege_exec": {"line": hosta(63) + "#", "class": ["privilege_exec"]},
+                "configuration": {"line": hosta(63) + r"\(config(-[A-Za-z0-9][A-Za-z0-9\-]{0,55})?\)#", "class": ["configuration"],
+                                  "carve": [(r"\(config-s-", "vendor: (config-s-<name>) is the configuration-session prompt", None)]},
+            },
+            # session NAME: the prompt shows its first 6 characters
+            "session": {"line_fmt": hosta(63) + r"\(config-s-%s(-[A-Za-z0-9][A-Za-z0-9\-]{0,40})?\)#"},
         },
-        # session NAME: the prompt shows its first 6 characters
-        "session": {"line_fmt": host(63) + r"\(config-s-%s(-[A-Za-z0-9][A-Za-z0-9\-]{0,40})?\)#"},
-    },
-    "juniper_junos": {
-        "trail": " ?",
-        "modes": {
-            "exec": {"line": r"(\{(master|backup|primary:node[01]|secondary:node[01])\}\n)?" + r"[a-z][a-z0-9_\-]{0,15}@" + host(40) + ">",
-                     "class": ["exec"]},
-            "configuration": {"line": r"(\{(master|backup|primary:node[01]|secondary:node[01])\}\[edit\]\n)?" + r"[a-z][a-z0-9_\-]{0,15}@" + host(40) + "#",
-                              "class": ["configuration", "configuration_exclusive", "configuration_private"],
-                              "carve": [(r"root@", "user name ending in root also reads as root_shell", "C05-junos-root-user")]},
-            "shell": {"line": r"[a-z][a-z0-9_\-]{0,15}@" + host(30) + r":[A-Za-z0-9_./~\-]{1,20} ?[%$]", "class": ["shell"],
-                      "carve": [(r"root", "the word root anywhere in a non-root shell prompt", "C05-junos-root-in-shell")]},
-            "root_shell": {"line": r"root@(" + host(30) + r")?(:[A-Za-z0-9_./~\-]{1,20} ?)?[%#]", "class": ["root_shell"]},
+        "juniper_junos": {
+            "trail": " ?",
+            # user and host names of any length; `len` bounds the whole `user@host` text by the patterns' own limit (63)
+            "modes": {
+                "exec": {"line": r"(\{(master|backup|primary:node[01]|secondary:node[01])\}\n)?" + JUSER + "@" + HOSTU + ">",
+                         "len": [r"([^\n]*\n)?[^\n]{1,63}>"], "class": ["exec"]},
+                "configuration": {"line": r"(\{(master|backup|primary:node[01]|secondary:node[01])\}\[edit\]\n)?" + JUSER + "@" + HOSTU + "#",
+                                  "len": [r"([^\n]*\n)?[^\n]{1,63}#"],
+                                  "class": ["configuration", "configuration_exclusive", "configuration_private"],
+                                  "carve": [(r"root@", "user name ending in root also reads as root_shell", "C05-junos-root-user")]},
+                "shell": {"line": JUSER + "@" + HOSTU + r":[A-Za-z0-9_./~\-]+ ?[%$]", "class": ["shell"],
+                          "carve": [(r"root", "the word root anywhere in a non-root shell prompt", "C05-junos-root-in-shell")]},
+                # csh root prompt `root@host:~ # ` (blank before the #), sh root prompt `root@host%` / `root@%`
+                "root_shell": {"line": r"root@(" + HOSTU + r")?(%|:[A-Za-z0-9_./~\-]+ [%#])", "class": ["root_shell"]},
+            },
         },
-    },
-}
+    }
+
+
+PLATFORMS = platforms(False)
 
 # session names registered for the generated session-level obligations (EOS / NX-OS)
 SESSION_NAMES = ["s1", "my-session", "tcl", "abcdefgh", "abcdefXY", "a.b", "cfg_1"]
